@@ -418,6 +418,54 @@ func genRace(r *prng.R, t tree, kind int) []string {
 	return []string{hold, a, "release"}
 }
 
+// delayed effects: what HAProxy is told to manage, 30 s (staleVersionTTL) after the pushes. A push that is
+// rolled back AFTER it had switched engines (the metrics reload fails), endpoints removed and re-added
+// within the delay, accepted replacements: after `tick`, `managed` must be the endpoints of the serving
+// configuration.
+func genDelayed(r *prng.R, t tree, kind int) []string {
+	eps := []string{"configuration", "apply_flows"}
+	co := func() string { return prng.Pick(r, []string{"g,um", "um,g"}) }
+	flows := func(n int) []item {
+		names := []string{"a", "b", "c"}
+		prng.Shuffle(r, names)
+		var items []item
+		for _, nm := range names[:n] {
+			items = append(items, item{"f/" + nm + ".yaml", flowTok(r)})
+		}
+		if r.Chance(30) {
+			items = append(items, item{"q/" + prng.Pick(r, []string{"qa", "qb"}) + ".yaml", fmt.Sprintf("q%d", r.Range(1, 2))})
+		}
+		sortItems(items)
+		return items
+	}
+	put := func(ep string, items []item) string {
+		sortItems(items)
+		return putLine(ep, "PUT", "items", items, "none", r.Chance(25), co())
+	}
+	var ops []string
+	add := func(p string) { ops = append(ops, p, "ls", "probe "+probeSet) }
+	switch kind % 4 {
+	case 0: // switched, then the metrics reload fails: restored and reloaded
+		add(put(prng.Pick(r, eps), append(flows(r.Range(1, 2)), item{"um", prng.Pick(r, []string{"bad", "xjunk"})})))
+		ops = append(ops, "managed", "tick", "managed")
+	case 1: // remove, re-add within the delay
+		add(put("apply_flows", flows(1)))
+		add(put("configuration", flows(r.Range(1, 3))))
+		ops = append(ops, "tick", "managed")
+	case 2: // accepted replacement, delay, rolled-back push, delay
+		add(put("apply_flows", flows(r.Range(1, 2))))
+		ops = append(ops, "tick", "managed")
+		add(put(prng.Pick(r, eps), append(flows(1), item{"um", "bad"})))
+		ops = append(ops, "tick", "managed")
+	default: // refused before any switch, then an accepted one
+		add(put(prng.Pick(r, eps), append(flows(1), item{"f/e.yaml", "bad"})))
+		ops = append(ops, "tick", "managed")
+		add(put(prng.Pick(r, eps), flows(r.Range(1, 2))))
+		ops = append(ops, "managed", "tick", "managed")
+	}
+	return ops
+}
+
 func gen(r *prng.R, f proto.Flags, emit func(proto.Case)) {
 	payloads := 90
 	if f.Tier == "thorough" {
@@ -445,6 +493,17 @@ func gen(r *prng.R, f proto.Flags, emit func(proto.Case)) {
 		rr := r.Fork()
 		t := genTree(rr)
 		one(t, genHistory(rr, t, k%5)...)
+	}
+	delayed := 100
+	if f.Tier == "thorough" {
+		delayed = 700
+	}
+	for k := 0; k < delayed*f.Budget; k++ {
+		rr := r.Fork()
+		t := genTree(rr)
+		ops := append([]string{t.line(), "ls", "probe " + probeSet, "managed"}, genDelayed(rr, t, k)...)
+		id++
+		emit(proto.Case{ID: fmt.Sprintf("g%d", id), Ops: ops})
 	}
 	races := 80
 	if f.Tier == "thorough" {
